@@ -780,6 +780,8 @@ class EvalMixin(InterpBase):
         if ci is None:
             if c.key.endswith(":Container") and len(args) == 1 and isinstance(args[0], DictV):
                 return args[0]        # construct.Container(dict): a dict with attribute access
+            if c.key.endswith(":Container") and not args:
+                return DictV(dict(kwargs))       # construct.Container(a=.., b=..): an ordered dict with attribute access
             if c.key.endswith(":ListContainer") and len(args) <= 1 and not kwargs:
                 return self.call_builtin("list", args, kwargs, fr)          # construct.ListContainer(iterable): a list subclass (printing only differs)
             raise Unsupported(f"instantiate external class {c.key}")
